@@ -107,6 +107,7 @@ type Frame struct {
 	arrays   map[ssa.Value][]Val
 	top      bool
 	loops    map[*ssa.BasicBlock]*loopInfo
+	loopLets map[*ssa.BasicBlock]map[string]Val
 	inDefer  bool
 	panicVal string
 }
